@@ -1336,7 +1336,476 @@ end Slicec.Gen
     return text, len(rows)
 
 
+# C08 additions to translator/extract.py: paste this block before `TABLES = {` and add the two entries
+#     "EncoderShapes": gen_encoder_shapes,
+#     "CompilerSchema": gen_compiler_schema,
+# to TABLES.
+
+# ------------------------------------------------------------------------------------------------
+# C08: Gen.EncoderShapes (definition_types.rs) and Gen.CompilerSchema (slice/Compiler/*.slice)
+# ------------------------------------------------------------------------------------------------
+
+def lean_str(x):
+    return '"' + x.replace("\\", "\\\\").replace('"', '\\"') + '"'
+
+
+def split_top(s, sep=","):
+    """split at `sep` outside <>, (), [] and {}"""
+    out, depth, cur = [], 0, []
+    for ch in s:
+        if ch in "<([{":
+            depth += 1
+        elif ch in ">)]}":
+            depth -= 1
+        if ch == sep and depth == 0:
+            out.append("".join(cur))
+            cur = []
+        else:
+            cur.append(ch)
+    if "".join(cur).strip():
+        out.append("".join(cur))
+    return [x.strip() for x in out if x.strip()]
+
+
+def gen_encoder_shapes(repo):
+    """every `pub struct` / `pub enum` / `pub type` of definition_types.rs (fields with types in order, explicit
+    discriminants), every `implement_encode_into_for_struct!(X, f, ..)` field list, the types with a hand-written
+    `impl EncodeInto for [&]X`, the order of the `encoder.encode*` calls inside each hand-written encoder, and the
+    shape of the macro body (fields in the given order, then the tag end marker)."""
+    T = "EncoderShapes"
+    rel = "slicec/src/definition_types.rs"
+    src = read(repo, rel, T)
+    # the macro itself: fields in order, then TAG_END_MARKER
+    mm = re.search(r"macro_rules!\s*implement_encode_into_for_struct\s*", src)
+    if not mm:
+        raise ExtractionError(T, rel, "macro implement_encode_into_for_struct not found")
+    mbody = block_after(src, mm.end())
+    if mbody is None or not re.search(r"\$\(\s*encoder\.encode\(&self\.\$field_name\)\?;\s*\)\*\s*encoder\.encode_varint\(TAG_END_MARKER\)\?;\s*Ok\(\(\)\)", mbody):
+        raise ExtractionError(T, rel, "macro body is not `$(encoder.encode(&self.$field_name)?;)* encoder.encode_varint(TAG_END_MARKER)?; Ok(())`")
+    tm = re.search(r"const\s+TAG_END_MARKER\s*:\s*i32\s*=\s*(-?\d+)\s*;", src)
+    if not tm:
+        raise ExtractionError(T, rel, "TAG_END_MARKER not found")
+    src_wo_macro = src[:mm.start()] + src[mm.end() + len(mbody) + 2:]
+    structs, tuples = [], []
+    for m in re.finditer(r"\bpub\s+struct\s+(\w+)\s*(\{|\()", src_wo_macro):
+        name = m.group(1)
+        if m.group(2) == "(":
+            body = block_after(src_wo_macro, m.end() - 1, "(", ")")
+            tuples.append((name, re.sub(r"^\s*pub\s+", "", re.sub(r"\s+", " ", body.strip()))))
+            continue
+        body = block_after(src_wo_macro, m.end() - 1)
+        if body is None:
+            raise ExtractionError(T, rel, f"body of struct {name} not found")
+        fields = []
+        for part in split_top(body):
+            fm = re.fullmatch(r"(?:#\[[^\]]*\]\s*)*pub\s+(\w+)\s*:\s*(.+)", part, re.S)
+            if not fm:
+                raise ExtractionError(T, rel, f"struct {name}: field `{part[:40]}` not understood")
+            fields.append((fm.group(1), re.sub(r"\s+", "", fm.group(2))))
+        structs.append((name, fields))
+    enums = []
+    for m in re.finditer(r"((?:#\[[^\]]*\]\s*)*)pub\s+enum\s+(\w+)\s*\{", src_wo_macro):
+        name = m.group(2)
+        rep = re.search(r"#\[repr\((\w+)\)\]", m.group(1))
+        body = block_after(src_wo_macro, m.end() - 1)
+        variants = []
+        nxt = 0
+        for part in split_top(body):
+            vm = re.fullmatch(r"(\w+)\s*(?:\(([^)]*)\))?\s*(?:=\s*(\d+))?", part, re.S)
+            if not vm:
+                raise ExtractionError(T, rel, f"enum {name}: variant `{part[:40]}` not understood")
+            disc = int(vm.group(3)) if vm.group(3) is not None else nxt
+            nxt = disc + 1
+            payload = [re.sub(r"\s+", "", x) for x in split_top(vm.group(2) or "")]
+            variants.append((vm.group(1), payload, disc, vm.group(3) is not None))
+        enums.append((name, rep.group(1) if rep else "", variants))
+    aliases = [(m.group(1), re.sub(r"\s+", "", m.group(2))) for m in re.finditer(r"\bpub\s+type\s+(\w+)\s*=\s*([^;]+);", src_wo_macro)]
+    macros = []
+    for m in re.finditer(r"implement_encode_into_for_struct!\s*\(", src_wo_macro):
+        args = block_after(src_wo_macro, m.end() - 1, "(", ")")
+        parts = split_top(args)
+        if not parts:
+            raise ExtractionError(T, rel, "empty implement_encode_into_for_struct! invocation")
+        macros.append((parts[0], parts[1:]))
+    struct_names = {n for n, _ in structs}
+    for n, fl in macros:
+        if n not in struct_names:
+            raise ExtractionError(T, rel, f"macro encoder for unknown struct {n}")
+        declared = [f for f, _ in dict(structs)[n]]
+        if sorted(declared) != sorted(fl):
+            raise ExtractionError(T, rel, f"macro encoder of {n} lists {fl}, the struct declares {declared}")
+    # hand-written encoders: the sequence of encode calls, as written
+    manual = []
+    for m in re.finditer(r"impl\s+EncodeInto\s+for\s+&?\s*(\w+)\s*\{", src_wo_macro):
+        body = block_after(src_wo_macro, m.end() - 1)
+        calls = []
+        for c in re.finditer(r"encoder\.(encode(?:_varint|_varuint|_size)?)\(\s*([^;]*?)\s*\)\?", body):
+            calls.append(c.group(1) + ":" + re.sub(r"\s+", "", c.group(2)))
+        manual.append((m.group(1), calls))
+    if len(structs) < 15 or len(enums) < 2 or len(macros) < 10:
+        raise ExtractionError(T, rel, "fewer structs / enums / macro encoders than expected were recognised")
+
+    def fl(l):
+        return "[" + ", ".join(f"({lean_str(a)}, {lean_str(b)})" for a, b in l) + "]"
+
+    def sl(l):
+        return "[" + ", ".join(lean_str(a) for a in l) + "]"
+
+    lines = ["-- GENERATED by translator/extract.py from slicec/src/definition_types.rs — do not edit.",
+             "namespace Slicec.Gen", "",
+             "/-- `pub struct Name { pub field: Type, … }` in declaration order -/",
+             "structure RustStruct where", "  name : String", "  fields : List (String × String)", "  deriving Repr, DecidableEq", "",
+             "/-- one enum variant: name, payload types, discriminant, whether the discriminant is written explicitly -/",
+             "structure RustVariant where", "  name : String", "  payload : List String", "  disc : Nat", "  explicit : Bool", "  deriving Repr, DecidableEq", "",
+             "structure RustEnum where", "  name : String", "  repr : String", "  variants : List RustVariant", "  deriving Repr, DecidableEq", "",
+             "def rustStructs : List RustStruct := ["]
+    lines.append(",\n".join(f"  ⟨{lean_str(n)}, {fl(f)}⟩" for n, f in structs) + "]")
+    lines.append("")
+    lines.append("/-- tuple structs: name, inner type -/")
+    lines.append(f"def rustTupleStructs : List (String × String) := {fl(tuples)}")
+    lines.append("")
+    lines.append("def rustEnums : List RustEnum := [")
+    lines.append(",\n".join(
+        f"  ⟨{lean_str(n)}, {lean_str(r)}, [" + ", ".join(f"⟨{lean_str(v)}, {sl(p)}, {d}, {'true' if e else 'false'}⟩" for v, p, d, e in vs) + "]⟩"
+        for n, r, vs in enums) + "]")
+    lines.append("")
+    lines.append(f"def rustTypeAliases : List (String × String) := {fl(aliases)}")
+    lines.append("")
+    lines.append("/-- `implement_encode_into_for_struct!(Name, f1, f2, …)`: the fields are encoded in this order, then the tag end marker -/")
+    lines.append("def macroEncoders : List (String × List String) := [")
+    lines.append(",\n".join(f"  ({lean_str(n)}, {sl(f)})" for n, f in macros) + "]")
+    lines.append("")
+    lines.append("/-- hand-written `impl EncodeInto for [&]Name`: the `encoder.encode*` calls in textual order (`method:argument`) -/")
+    lines.append("def manualEncoders : List (String × List String) := [")
+    lines.append(",\n".join(f"  ({lean_str(n)}, {sl(c)})" for n, c in manual) + "]")
+    lines.append("")
+    lines.append(f"def encoderTagEndMarker : Int := {tm.group(1)}")
+    lines.append("")
+    # ---- main.rs: the request as a whole -------------------------------------------------------
+    rel2 = "slicec/src/main.rs"
+    msrc = read(repo, rel2, T)
+    body = fn_body(msrc, "encode_generate_code_request", T, rel2)
+    opn = re.search(r"slice_encoder\.encode\(\s*\"([^\"]*)\"\s*\)\?", body)
+    if not opn:
+        raise ExtractionError(T, rel2, "the operation-name literal `slice_encoder.encode(\"…\")?` was not found")
+    seq_calls = [re.sub(r"\s+", "", c) for c in re.findall(r"slice_encoder\.encode\(\s*&\s*(\w+)\s*\)\?", body)]
+    if len(seq_calls) != 2:
+        raise ExtractionError(T, rel2, f"expected two `slice_encoder.encode(&…)?` calls, found {seq_calls}")
+    if body.find(opn.group(0)) > body.find("slice_encoder.encode(&"):
+        raise ExtractionError(T, rel2, "the operation name is not encoded first")
+    routing = re.search(r"match\s+parsed_file\.is_source\s*\{\s*true\s*=>\s*(\w+)\.push\(converted_file\)\s*,\s*false\s*=>\s*(\w+)\.push\(converted_file\)\s*,?\s*\}", body)
+    if not routing:
+        raise ExtractionError(T, rel2, "`match parsed_file.is_source { true => X.push(converted_file), false => Y.push(converted_file) }` not found")
+    if not re.search(r"for\s+parsed_file\s+in\s+parsed_files\b", body) or not re.search(r"definition_types::SliceFile::from\(parsed_file\)", body):
+        raise ExtractionError(T, rel2, "the conversion loop `for parsed_file in parsed_files { … SliceFile::from(parsed_file) … }` not found")
+    skips = bool(re.search(r"if\s+parsed_file\.module\.is_none\(\)\s*\{\s*continue;\s*\}", body))
+    n_cont = len(re.findall(r"\bcontinue\b", body))
+    if n_cont != (1 if skips else 0):
+        raise ExtractionError(T, rel2, "an unexpected `continue` in the conversion loop")
+    order = ["sources" if c == routing.group(1) else "references" if c == routing.group(2) else "?" for c in seq_calls]
+    if "?" in order:
+        raise ExtractionError(T, rel2, f"encoded vectors {seq_calls} are not the ones filled by the is_source match")
+    sp = fn_body(msrc, "spawn_plugin_process", T, rel2)
+    w1, w2 = sp.find("stdin.write_all(slice_payload)"), sp.find("stdin.write_all(&arguments_payload)")
+    if w1 < 0 or w2 < 0 or w2 < w1 or not re.search(r"slice_encoder\.encode\(definition_types::Arguments\(plugin\.args\.clone\(\)\)\)\?", sp):
+        raise ExtractionError(T, rel2, "spawn_plugin_process: payload then `Arguments(plugin.args.clone())` not found in this order")
+    lines.append("/-- `encode_generate_code_request` (main.rs): operation name literal, the order of the two encoded vectors,")
+    lines.append("    whether a file without module declaration is skipped; `spawn_plugin_process` writes the payload, then the arguments -/")
+    lines.append(f"def requestOpName : String := {lean_str(opn.group(1))}")
+    lines.append(f"def requestVectors : List String := {sl(order)}")
+    lines.append(f"def requestSkipsModuleless : Bool := {'true' if skips else 'false'}")
+    lines.append("def requestThenArguments : Bool := true")
+    lines.append("")
+    lines.append("end Slicec.Gen")
+    text = "\n".join(lines) + "\n"
+    rows = len(structs) + len(tuples) + len(enums) + len(aliases) + len(macros) + len(manual) + 5
+    return text, rows
+
+
+# ---- an independent mini-parser for the subset of Slice used by slice/Compiler/*.slice ----------
+
+SLICE_TOKEN = re.compile(r"\s+|//[^\n]*|/\*.*?\*/|(?P<tok>\[\[|\]\]|::|->|\\?[A-Za-z_][A-Za-z0-9_]*|\d+|\"(?:[^\"\\]|\\.)*\"|[{}()\[\]<>,:=?\-])", re.S)
+
+
+def slice_tokens(text, T, rel):
+    toks, i = [], 0
+    while i < len(text):
+        m = SLICE_TOKEN.match(text, i)
+        if not m:
+            raise ExtractionError(T, rel, f"unexpected character {text[i]!r} at offset {i}")
+        if m.group("tok") is not None:
+            toks.append(m.group("tok"))
+        i = m.end()
+    return toks
+
+
+class SliceMiniParser:
+    def __init__(self, toks, T, rel):
+        self.t, self.i, self.T, self.rel = toks, 0, T, rel
+
+    def peek(self, k=0):
+        return self.t[self.i + k] if self.i + k < len(self.t) else None
+
+    def next(self):
+        tok = self.peek()
+        if tok is None:
+            raise ExtractionError(self.T, self.rel, "unexpected end of file")
+        self.i += 1
+        return tok
+
+    def expect(self, tok):
+        got = self.next()
+        if got != tok:
+            raise ExtractionError(self.T, self.rel, f"expected `{tok}`, found `{got}` (token {self.i})")
+
+    def ident(self):
+        tok = self.next()
+        if not re.fullmatch(r"\\?[A-Za-z_][A-Za-z0-9_]*", tok):
+            raise ExtractionError(self.T, self.rel, f"identifier expected, found `{tok}`")
+        return tok.lstrip("\\")
+
+    def skip_attributes(self):
+        while self.peek() in ("[", "[["):
+            close = "]" if self.next() == "[" else "]]"
+            while self.next() != close:
+                pass
+
+    def scoped(self):
+        name = ""
+        if self.peek() == "::":
+            self.next()
+            name = "::"
+        name += self.ident()
+        while self.peek() == "::":
+            self.next()
+            name += "::" + self.ident()
+        return name
+
+    def type_ref(self):
+        """returns (type, optional)"""
+        self.skip_attributes()
+        tok = self.peek()
+        if tok == "Sequence":
+            self.next(); self.expect("<"); e = self.type_ref(); self.expect(">")
+            ty = ("seq", e)
+        elif tok == "Dictionary":
+            self.next(); self.expect("<"); k = self.type_ref(); self.expect(","); v = self.type_ref(); self.expect(">")
+            ty = ("dict", k, v)
+        elif tok == "Result":
+            self.next(); self.expect("<"); s = self.type_ref(); self.expect(","); f = self.type_ref(); self.expect(">")
+            ty = ("result", s, f)
+        else:
+            ty = ("name", self.scoped())
+        opt = False
+        if self.peek() == "?":
+            self.next()
+            opt = True
+        return (ty, opt)
+
+    def member(self):
+        """[attrs] [tag(n)] name: [stream] Type"""
+        self.skip_attributes()
+        tag = None
+        if self.peek() == "tag" and self.peek(1) == "(":
+            self.next(); self.next(); tag = int(self.next()); self.expect(")")
+        name = self.ident()
+        self.expect(":")
+        stream = False
+        if self.peek() == "stream":
+            self.next()
+            stream = True
+        ty, opt = self.type_ref()
+        return {"name": name, "ty": ty, "opt": opt, "tag": tag, "stream": stream}
+
+    def member_list(self, close):
+        out = []
+        while self.peek() != close:
+            out.append(self.member())
+            if self.peek() == ",":
+                self.next()
+        self.expect(close)
+        return out
+
+    def file(self):
+        out = {"module": None, "structs": [], "enums": [], "aliases": [], "ops": []}
+        while self.peek() is not None:
+            self.skip_attributes()
+            mods = set()
+            while self.peek() in ("compact", "unchecked"):
+                mods.add(self.next())
+            kw = self.next()
+            if kw == "module":
+                out["module"] = self.scoped()
+            elif kw == "struct":
+                name = self.ident(); self.expect("{")
+                out["structs"].append({"name": name, "compact": "compact" in mods, "fields": self.member_list("}")})
+            elif kw == "typealias":
+                name = self.ident(); self.expect("=")
+                ty, opt = self.type_ref()
+                out["aliases"].append({"name": name, "ty": ty, "opt": opt})
+            elif kw == "enum":
+                name = self.ident()
+                underlying = None
+                if self.peek() == ":":
+                    self.next()
+                    (u, _o) = self.type_ref()
+                    if u[0] != "name":
+                        raise ExtractionError(self.T, self.rel, f"enum {name}: underlying type is not a name")
+                    underlying = u[1]
+                self.expect("{")
+                variants = []
+                while self.peek() != "}":
+                    self.skip_attributes()
+                    vname = self.ident()
+                    fields = None
+                    if self.peek() == "(":
+                        self.next()
+                        fields = self.member_list(")")
+                    value = None
+                    if self.peek() == "=":
+                        self.next()
+                        neg = False
+                        if self.peek() == "-":
+                            self.next(); neg = True
+                        value = int(self.next())
+                        value = -value if neg else value
+                    variants.append({"name": vname, "fields": fields, "value": value})
+                    if self.peek() == ",":
+                        self.next()
+                self.expect("}")
+                out["enums"].append({"name": name, "underlying": underlying, "unchecked": "unchecked" in mods, "compact": "compact" in mods, "variants": variants})
+            elif kw == "interface":
+                iname = self.ident()
+                if self.peek() == ":":
+                    self.next(); self.scoped()
+                    while self.peek() == ",":
+                        self.next(); self.scoped()
+                self.expect("{")
+                while self.peek() != "}":
+                    self.skip_attributes()
+                    idem = False
+                    if self.peek() == "idempotent":
+                        self.next(); idem = True
+                    oname = self.ident(); self.expect("(")
+                    params = self.member_list(")")
+                    rets = []
+                    if self.peek() == "->":
+                        self.next()
+                        if self.peek() == "(":
+                            self.next(); rets = self.member_list(")")
+                        else:
+                            stream = False
+                            if self.peek() == "stream":
+                                self.next(); stream = True
+                            ty, opt = self.type_ref()
+                            rets = [{"name": "returnValue", "ty": ty, "opt": opt, "tag": None, "stream": stream}]
+                    out["ops"].append({"iface": iname, "name": oname, "idempotent": idem, "params": params, "returns": rets})
+                self.expect("}")
+            else:
+                raise ExtractionError(self.T, self.rel, f"unexpected token `{kw}` at top level")
+        return out
+
+
+SLICE_PRIMS = ["bool", "int8", "uint8", "int16", "uint16", "int32", "uint32", "varint32", "varuint32", "int64", "uint64",
+               "varint62", "varuint62", "float32", "float64", "string"]
+
+
+def gen_compiler_schema(repo):
+    T = "CompilerSchema"
+    base = os.path.join(repo, "slice", "Compiler")
+    if not os.path.isdir(base):
+        raise ExtractionError(T, "slice/Compiler", "directory missing")
+    files = sorted(f for f in os.listdir(base) if f.endswith(".slice"))
+    if not files:
+        raise ExtractionError(T, "slice/Compiler", "no .slice file")
+    structs, enums, aliases, ops, modules = [], [], [], [], set()
+    for fn in files:
+        rel = os.path.join("slice", "Compiler", fn)
+        text = open(os.path.join(repo, rel), encoding="utf-8").read()
+        # doc comments are comments for this purpose
+        parsed = SliceMiniParser(slice_tokens(text, T, rel), T, rel).file()
+        if parsed["module"] is None:
+            raise ExtractionError(T, rel, "no module declaration")
+        modules.add(parsed["module"])
+        structs += parsed["structs"]; enums += parsed["enums"]; aliases += parsed["aliases"]; ops += parsed["ops"]
+    if len(modules) != 1:
+        raise ExtractionError(T, "slice/Compiler", f"more than one module: {sorted(modules)}")
+    names = [x["name"] for x in structs + enums + aliases]
+    if len(set(names)) != len(names):
+        raise ExtractionError(T, "slice/Compiler", "a type name is declared twice")
+
+    def ty(t):
+        if t[0] == "name":
+            n = t[1]
+            if n in SLICE_PRIMS:
+                return f"(.prim {lean_str(n)})"
+            if n.lstrip(":").split("::")[-1] not in names:
+                raise ExtractionError(T, "slice/Compiler", f"type `{n}` is not declared in the schema")
+            return f"(.named {lean_str(n.lstrip(':').split('::')[-1])})"
+        if t[0] == "seq":
+            e, eo = t[1]
+            return f"(.seq {ty(e)} {'true' if eo else 'false'})"
+        if t[0] == "dict":
+            (k, ko), (v, vo) = t[1], t[2]
+            if ko:
+                raise ExtractionError(T, "slice/Compiler", "optional dictionary key")
+            return f"(.dict {ty(k)} {ty(v)} {'true' if vo else 'false'})"
+        raise ExtractionError(T, "slice/Compiler", f"type constructor `{t[0]}` is not supported by the schema model")
+
+    def field(m):
+        tag = "none" if m["tag"] is None else f"(some {m['tag']})"
+        return f"⟨{lean_str(m['name'])}, {ty(m['ty'])}, {'true' if m['opt'] else 'false'}, {tag}, {'true' if m['stream'] else 'false'}⟩"
+
+    def fields(ms):
+        return "[" + ", ".join(field(m) for m in ms) + "]"
+
+    L = ["-- GENERATED by translator/extract.py from slice/Compiler/*.slice (independent mini-parser) — do not edit.",
+         "namespace Slicec.Gen", "",
+         "/-- a type as written in the schema; sequences / dictionary values carry the `?` of their element type -/",
+         "inductive STy where", "  | prim (name : String)", "  | named (name : String)", "  | seq (elem : STy) (elemOptional : Bool)",
+         "  | dict (key value : STy) (valueOptional : Bool)", "  deriving Repr, DecidableEq, Inhabited", "",
+         "/-- a field / parameter: name, type, `?`, `tag(n)`, `stream` -/",
+         "structure SField where", "  name : String", "  ty : STy", "  optional : Bool", "  tag : Option Nat", "  stream : Bool",
+         "  deriving Repr, DecidableEq, Inhabited", "",
+         "structure SStruct where", "  name : String", "  compact : Bool", "  fields : List SField", "  deriving Repr, DecidableEq, Inhabited", "",
+         "/-- an enumerator: name, associated fields (`none` = no parentheses), explicit value -/",
+         "structure SVariant where", "  name : String", "  fields : Option (List SField)", "  value : Option Int", "  deriving Repr, DecidableEq, Inhabited", "",
+         "structure SEnum where", "  name : String", "  underlying : Option String", "  unchecked : Bool", "  compact : Bool", "  variants : List SVariant",
+         "  deriving Repr, DecidableEq, Inhabited", "",
+         "structure SAlias where", "  name : String", "  ty : STy", "  optional : Bool", "  deriving Repr, DecidableEq, Inhabited", "",
+         "structure SOp where", "  iface : String", "  name : String", "  params : List SField", "  returns : List SField", "  deriving Repr, DecidableEq, Inhabited", "",
+         f"def schemaModule : String := {lean_str(sorted(modules)[0])}",
+         f"def schemaFiles : List String := [{', '.join(lean_str(f) for f in files)}]", "",
+         "def schemaStructs : List SStruct := ["]
+    L.append(",\n".join(f"  ⟨{lean_str(s['name'])}, {'true' if s['compact'] else 'false'}, {fields(s['fields'])}⟩" for s in structs) + "]")
+    L.append("")
+    L.append("def schemaEnums : List SEnum := [")
+
+    def variant(v):
+        fs = "none" if v["fields"] is None else f"(some {fields(v['fields'])})"
+        val = "none" if v["value"] is None else f"(some ({v['value']}))"
+        return f"⟨{lean_str(v['name'])}, {fs}, {val}⟩"
+
+    def enum(e):
+        u = "none" if e["underlying"] is None else f"(some {lean_str(e['underlying'])})"
+        return (f"  ⟨{lean_str(e['name'])}, {u}, {'true' if e['unchecked'] else 'false'}, {'true' if e['compact'] else 'false'}, [" +
+                ", ".join(variant(v) for v in e["variants"]) + "]⟩")
+    L.append(",\n".join(enum(e) for e in enums) + "]")
+    L.append("")
+    L.append("def schemaAliases : List SAlias := [" + ", ".join(f"⟨{lean_str(a['name'])}, {ty(a['ty'])}, {'true' if a['opt'] else 'false'}⟩" for a in aliases) + "]")
+    L.append("")
+    L.append("def schemaOps : List SOp := [" + ", ".join(
+        f"⟨{lean_str(o['iface'])}, {lean_str(o['name'])}, {fields(o['params'])}, {fields(o['returns'])}⟩" for o in ops) + "]")
+    L.append("")
+    L.append("end Slicec.Gen")
+    text = "\n".join(L) + "\n"
+    rows = len(structs) + len(enums) + len(aliases) + len(ops) + sum(len(s["fields"]) for s in structs) + sum(len(e["variants"]) for e in enums)
+    return text, rows
+
+
 TABLES = {
+    "EncoderShapes": gen_encoder_shapes,
+    "CompilerSchema": gen_compiler_schema,
     "CommentKeywords": gen_comment_keywords,
     "Lints": gen_lints,
     "ResolveKinds": gen_resolve_kinds,
